@@ -18,6 +18,8 @@ fn rac_key(l: &Lint, shift: usize) -> String {
 #[test]
 fn rac_paragraph_independence() {
     let mut group = LintGroup::new_curated(FstDictionary::curated(), Dialect::American);
+    // "all rules enabled" (the property's quantifier), not just the curated defaults
+    group.set_all_rules_to(Some(true));
     let firsts: Vec<String> = RAC_LINT_CORPUS.iter()
         .filter(|t| !t.contains('"') && !t.contains('“') && !t.contains('”') && !t.contains('\n') && !t.is_empty())
         .step_by(5).take(110)
@@ -26,10 +28,16 @@ fn rac_paragraph_independence() {
     let mut firsts = firsts;
     // shapes the sampled sentences do not have: ordinals (token merging), a clause that also opens the continuation,
     // a very short paragraph
-    for t in ["We came 1st in May and 3rd in June.\n\n", "Intro words. I should of gone there.\n\n", "Fine.\n\n", "It was the 2st time. Then then it ended.\n\n"] { firsts.push(t.to_string()); }
+    for t in ["The market opens early on Saturday mornings.\n\n", "We sell apples, pears, bread, cheese, wine, etc.\n\n",
+              "This first paragraph has one rather long sentence that keeps going for a while, with apples, pears, and plums in it, so that any scan position carried over from it is large.\n\n",
+              "We came 1st in May and 3rd in June.\n\n", "Intro words. I should of gone there.\n\n", "Fine.\n\n", "It was the 2st time. Then then it ended.\n\n"] { firsts.push(t.to_string()); }
     let mut seconds: Vec<String> = RAC_LINT_CORPUS.iter().filter(|t| !t.contains("\n\n")).skip(3).step_by(9).take(60).map(|t| t.to_string()).collect();
     seconds.push("it started with \"a quote and the the end".to_string());
     seconds.push("lowercase start, 2st place\nand a second line".to_string());
+    seconds.push("In short, we bought apples, pears and plums.".to_string());
+    seconds.push("25 $ was the price of it.".to_string());
+    seconds.push("Is the old lamp still there?".to_string());
+    seconds.push("We bought apples, pears, and plums.".to_string());
     seconds.push("They came 2nd and 4th, we we came 5st.".to_string());
     seconds.push("I should of gone there. I should of gone there.".to_string());
     seconds.push("a short one.\n\nAnother paragraph follows here and it is is long enough.".to_string());
@@ -73,11 +81,13 @@ fn rac_paragraph_independence() {
     }
     // the same contract with a FRESH rule set for each of the three runs (no shared pattern cache), on the hand-made
     // shapes and a sample of the pairs above: a defect that is replayed consistently from a shared cache cancels out above
-    let special_first: Vec<String> = firsts.iter().rev().take(4).cloned().chain(firsts.iter().step_by(23).cloned()).collect();
-    let special_second: Vec<String> = seconds.iter().rev().take(6).cloned().chain(seconds.iter().step_by(17).cloned()).collect();
+    let special_first: Vec<String> = firsts.iter().rev().take(7).cloned().chain(firsts.iter().step_by(23).cloned()).collect();
+    let special_second: Vec<String> = seconds.iter().rev().take(10).cloned().chain(seconds.iter().step_by(17).cloned()).collect();
     let fresh = |t: &str| -> Vec<Lint> {
         let doc = Document::new_plain_english_curated(t);
-        LintGroup::new_curated(FstDictionary::curated(), Dialect::American).lint(&doc)
+        let mut g = LintGroup::new_curated(FstDictionary::curated(), Dialect::American);
+        g.set_all_rules_to(Some(true));
+        g.lint(&doc)
     };
     for p in &special_first {
         let plen = p.chars().count();
